@@ -186,9 +186,11 @@ def check_step(c, word, t, pre, post, un, rec):
           shape_k = tuple(tree[k])
           pexp = 2 * len(shape_k)
           msize = max(max(tuple(sh)) for sh in tree.values())
-          msg = c02.root_check(cfgr, S, P, err, 1.0 if nm else float(m["retries"][i]),
-                               None if (c["eigh"] or nm) else float(m["max_ev"][i]), pexp,
-                               max(x.shape[0] for kk in tree for x in post["params"][kk]["stats"]), False, rec)
+          msz = max(x.shape[0] for kk in tree for x in post["params"][kk]["stats"])
+          if nm:
+            msg = c02.root_check_unknown_retries(cfgr, S, P, err, None, pexp, msz, False, rec)
+          else:
+            msg = c02.root_check(cfgr, S, P, err, float(m["retries"][i]), None if c["eigh"] else float(m["max_ev"][i]), pexp, msz, False, rec)
           rec.count("installed_roots_residual_checked")
           if msg:
             return ("installed-root-not-a-root:" + c["mode"], "preconditioner %s[%d] installed at step %d with reported error %g, but %s (word %s)" % (k, i, t, err, msg, "-".join(word)))
